@@ -47,7 +47,7 @@ ASSUMPTIONS = [
 ]
 BUDGET = {
     "quick": dict(cases=270, shards=4, timeout=900),
-    "thorough": dict(cases=2400, shards=16, timeout=3000),
+    "thorough": dict(cases=6000, shards=16, timeout=3000),
 }
 CLASSES = [
     "direct", "direct_cv", "direct_log", "direct_cv_detached",
